@@ -21,8 +21,7 @@ Module Names.
 Import Coq.Strings.String.
 (* OBLIGATION *)
 Theorem translated_functions :
-  A.translated = ["Add"; "Clear"; "Contains"; "Empty"; "Get"; "IndexOf"; "Insert"; "New"; "Remove"; "Set_"; "Size";
-                  "Swap"; "Values"; "growBy"; "resize"; "shrink"; "withinRange"]%string
+  A.translated = ["Add"; "Clear"; "Contains"; "Empty"; "FromJSON"; "Get"; "IndexOf"; "Insert"; "MarshalJSON"; "New"; "Remove"; "Set_"; "Size"; "Swap"; "ToJSON"; "UnmarshalJSON"; "Values"; "growBy"; "resize"; "shrink"; "withinRange"]%string
   /\ A.skipped = ["Sort"; "String"]%string /\ A.not_selected = [].
 Proof. repeat split. Qed.
 Print Assumptions translated_functions.
